@@ -2748,8 +2748,38 @@ def _run_name_fix_pass(model: ir.Model) -> None:
     common_passes.NameFixPass()(model)
 
 
+def _merge_duplicate_output_identities(graph: ir.Graph) -> None:
+    """Keep one producer per graph-output name.
+
+    When one value fills several graph-output slots and its producer is merged
+    away, onnx_ir's CSE gives every slot its own Identity that reuses the slot's
+    name, which breaks SSA. Point all such slots at the first Identity.
+    """
+    first_by_name: Dict[str, ir.Value] = {}
+    for idx, out in enumerate(list(graph.outputs)):
+        name = _v_name(out)
+        if name is None:
+            continue
+        kept = first_by_name.setdefault(name, out)
+        if kept is out:
+            continue
+        graph.outputs[idx] = kept
+        producer = out.producer()
+        if (
+            isinstance(producer, ir.Node)
+            and producer.op_type == "Identity"
+            and not out.uses()
+        ):
+            graph.remove(producer, safe=True)
+
+
 def _run_common_subexpression_elimination_pass(model: ir.Model) -> None:
     common_passes.CommonSubexpressionEliminationPass()(model)
+    _merge_duplicate_output_identities(model.graph)
+    for fn in iter_ir_functions(model.functions):
+        fn_graph = getattr(fn, "graph", None)
+        if isinstance(fn_graph, ir.Graph):
+            _merge_duplicate_output_identities(fn_graph)
 
 
 def _run_lift_constants_to_initializers_pass(model: ir.Model) -> None:
